@@ -1,4 +1,4 @@
-use crate::CompileError;
+use crate::{CommandCompiler, CompileError};
 use ariadne::{Label, Report, ReportKind};
 use zydeco_session::{AnalysisError, ProgramAnalysis, SourceCaches, SourceGraph};
 use zydeco_statics::{TyckObservation, fmt as static_fmt, syntax as ss};
@@ -9,11 +9,11 @@ use zydeco_utils::span::PathDisplay;
 pub struct DiagnosticRenderer;
 
 impl DiagnosticRenderer {
-    pub fn error(error: &CompileError) {
+    pub fn error(compiler: &CommandCompiler, error: &CompileError) {
         match error {
             | CompileError::Rejected(analysis) => {
                 Self::warnings(analysis);
-                Self::observations(analysis);
+                Self::observations(compiler, analysis);
                 if let Some(reports) = analysis.outcome().reports() {
                     reports.reports.iter().for_each(|report| {
                         let _ = report.eprint(SourceCaches::analysis(analysis));
@@ -46,7 +46,16 @@ impl DiagnosticRenderer {
         });
     }
 
-    pub fn observations(analysis: &ProgramAnalysis) {
+    pub fn observations(compiler: &CommandCompiler, analysis: &ProgramAnalysis) {
+        if analysis.observations().is_empty() {
+            return;
+        }
+        // An analysis retains only the keyed indexes of its arena; rendering a
+        // solution or a debug result reads type nodes, so recover the full arena.
+        let Some(statics) = compiler.materialize_arena(analysis) else {
+            return;
+        };
+        let statics = statics.as_ref();
         if analysis
             .observations()
             .iter()
@@ -71,7 +80,7 @@ impl DiagnosticRenderer {
                     |solution| {
                         solution.ugly(&static_fmt::Formatter::new(
                             analysis.scoped(),
-                            analysis.statics(),
+                            statics,
                         ))
                     },
                 );
@@ -80,7 +89,7 @@ impl DiagnosticRenderer {
             | TyckObservation::Debug { metadata, result } => {
                 print!("[debug printing] ");
                 metadata.arguments().iter().for_each(|argument| print!("{argument}"));
-                let formatter = static_fmt::Formatter::new(analysis.scoped(), analysis.statics());
+                let formatter = static_fmt::Formatter::new(analysis.scoped(), statics);
                 match result {
                     | ss::TermAnnId::Hole(fill) => println!(" (hole): {}", fill.concise()),
                     | ss::TermAnnId::Kind(kind) => {
